@@ -1,6 +1,8 @@
 package rules
 
 import (
+	"fmt"
+	"strings"
 	"go/types"
 	"sort"
 
@@ -318,5 +320,106 @@ func c18StripConv(v ssa.Value) ssa.Value {
 		default:
 			return v
 		}
+	}
+}
+
+// ---------------------------------------------------------------------------
+// C18.shared: registered format descriptors are immutable once decoding can start
+//
+// decode.Format, decode.Group and decode.Dependency objects are created at package initialisation,
+// registered once and then shared by every decode of the process. Rule: a store into a field of one of
+// these types (or into an element of their slice fields) happens only in package initialisation, in the
+// registry's registration method, inside the resolve Once closure, or on an object freshly created in
+// the same function (composite literal / new).
+
+func c18Shared(r *fw.Run, p *fw.Program) {
+	ru := r.Rule("C18.shared", "fields of the process-wide format descriptors (decode.Format, decode.Group, decode.Dependency) are stored only during package initialisation, by Registry.Format (which refuses after resolution), inside the resolve sync.Once closure, or on an object created in the same function: no decode mutates a descriptor other decodes share", 200)
+	isDesc := func(t types.Type) string {
+		pt, ok := t.Underlying().(*types.Pointer)
+		if !ok {
+			return ""
+		}
+		n, ok := pt.Elem().(*types.Named)
+		if !ok || n.Obj().Pkg() == nil || n.Obj().Pkg().Path() != fw.Mod+"/pkg/decode" {
+			return ""
+		}
+		switch n.Obj().Name() {
+		case "Format", "Group", "Dependency":
+			return n.Obj().Name()
+		}
+		return ""
+	}
+	// base object of an address: through field / index addressing and loads of slice fields
+	var descBase func(a ssa.Value, depth int) (ssa.Value, string, string)
+	descBase = func(a ssa.Value, depth int) (ssa.Value, string, string) {
+		if depth > 6 {
+			return nil, "", ""
+		}
+		switch x := a.(type) {
+		case *ssa.FieldAddr:
+			if d := isDesc(x.X.Type()); d != "" {
+				return x.X, d, fieldNameOf(x.X.Type(), x.Field)
+			}
+			return descBase(x.X, depth+1)
+		case *ssa.IndexAddr:
+			// element of a slice loaded from a descriptor field
+			if u, ok := x.X.(*ssa.UnOp); ok {
+				if fa, ok := u.X.(*ssa.FieldAddr); ok {
+					if d := isDesc(fa.X.Type()); d != "" {
+						return fa.X, d, fieldNameOf(fa.X.Type(), fa.Field) + "[i]"
+					}
+				}
+			}
+			return descBase(x.X, depth+1)
+		}
+		return nil, "", ""
+	}
+	fresh := func(v ssa.Value) bool {
+		for i := 0; i < 6; i++ {
+			switch x := v.(type) {
+			case *ssa.Alloc:
+				return true
+			case *ssa.Phi:
+				for _, e := range x.Edges {
+					if _, ok := e.(*ssa.Alloc); !ok {
+						return false
+					}
+				}
+				return true
+			default:
+				return false
+			}
+		}
+		return false
+	}
+	ord := map[string]int{}
+	for _, fn := range p.FqFunctions() {
+		fw.EachInstr(fn, func(ins ssa.Instruction) {
+			st, ok := ins.(*ssa.Store)
+			if !ok {
+				return
+			}
+			base, typ, field := descBase(st.Addr, 0)
+			if base == nil {
+				return
+			}
+			if fresh(base) {
+				return
+			}
+			top := fw.Top(fn)
+			k := fw.ShortFn(fn) + "|" + typ + "." + field
+			ord[k]++
+			key := fmt.Sprintf("%s#%d", k, ord[k])
+			switch {
+			case top.Name() == "init" || strings.HasPrefix(top.Name(), "init#") || top.Synthetic != "" && strings.HasPrefix(top.Name(), "init"):
+				ru.Ok(key, p.Rel(st.Pos()), "package initialisation")
+			case insideOnceDo(fn):
+				ru.Ok(key, p.Rel(st.Pos()), "inside the resolve sync.Once closure")
+			case fw.ShortFn(top) == "(*pkg/interp.Registry).Format":
+				ru.Ok(key, p.Rel(st.Pos()), "registration (refuses once groups are resolved: C18.once)")
+			default:
+				ru.Fail(key, p.Rel(st.Pos()), "stores into "+typ+"."+field+" of a registered format descriptor outside initialisation/registration: the descriptor is shared by every decode of the process, so one decode changes (and races with) another")
+			}
+		})
 	}
 }
